@@ -1318,7 +1318,7 @@ def check_underflow_check_sees_all_digits(ctx, res, config="all"):
         k = 0
         for i, t in b.calls():
             c = callee(t) or ""
-            if i not in b.live_blocks() or not (c.endswith("subtraction::sub2") or c.endswith("subtraction::sub2rev")):
+            if i not in b.live_blocks() or not (c.endswith("subtraction::sub2") or c.endswith("subtraction::sub2rev") or c.endswith("subtraction::__sub2rev")):
                 continue
             n += 1
             key = "%s|%s#%d" % (b.path, c.split("::")[-1], k)
@@ -1384,3 +1384,55 @@ def check_gcd_zero_cases(ctx, res, config="all"):
         else:
             res.fail(Finding("R3b-gcd-zero-case", key, "BigUint::gcd has no early return of the other operand for a zero operand %d before entering the binary (Stein) algorithm" % p, b))
     res.clause("C13: BigUint::gcd returns the other operand for a zero operand (both sides) before the binary algorithm starts")
+
+
+def check_parse_validation_order(ctx, res, config="all"):
+    """text parsing: the empty-input and leading-underscore rejections are applied to the string *after* the optional sign has
+    been stripped (otherwise "+_1" / "+" are judged on the wrong first character); failures are Err, never a panic"""
+    facts = ctx.facts(config)
+    n = 0
+    for ty, sign_char in (("biguint::BigUint", 43), ("bigint::BigInt", 45)):
+        bs = facts.find(trait="num_traits::Num", self_ty=ty, name="from_str_radix")
+        if len(bs) != 1:
+            res.fail(Finding("R3-anchor-lost", "from_str_radix " + ty, "not found", file="src", line=0))
+            continue
+        b = bs[0]
+        n += 1
+        strips = [i for i, t in b.calls() if i in b.live_blocks() and callee_name(t) == "strip_prefix" and any(core.op_const(a) == sign_char for a in t["args"])]
+        key = "%s::from_str_radix" % ty.split("::")[-1]
+        if len(strips) != 1:
+            res.fail(Finding("R3-parse-order", key, "the optional sign is not removed with strip_prefix(%r) exactly once" % chr(sign_char), b))
+            continue
+        errs = []
+        if ty.endswith("BigUint"):
+            us = [i for i, t in b.calls() if i in b.live_blocks() and callee_name(t) == "starts_with" and any(core.op_const(a) == 95 for a in t["args"])]
+            em = [i for i, t in b.calls() if i in b.live_blocks() and callee_name(t) == "is_empty"]
+            if not us:
+                errs.append("no rejection of a leading '_'")
+            if not em:
+                errs.append("no rejection of empty input")
+            for i in us + em:
+                if not b.block_dominates(strips[0], i):
+                    errs.append("the %s test is not applied to the sign-stripped string" % ("leading '_'" if i in us else "empty-input"))
+            # rejected inputs produce Err (the true edge of each test reaches a return through an Err aggregate, no panic)
+            tl, atoms = tests_of(b)
+            for t in tl:
+                c = t.cond
+                if c is not None and c.kind == "call" and ((c.name == "starts_with" and t.bb - 0 >= 0 and any(95 in consts_of(a) for a in c.args)) or c.name == "is_empty"):
+                    reg = b.reachable(t.t, without_blocks=[t.f])
+                    iserr = any(s["k"] == "assign" and s["place"]["local"] == 0 and s["rv"]["k"] == "aggregate" and s["rv"].get("variant") == "Err" for x in reg for s in b.blocks[x]["stmts"])
+                    if not iserr or fate(b, t.t) != "return":
+                        errs.append("a rejected input does not return Err")
+        else:
+            # BigInt: after stripping '-', the magnitude is parsed by BigUint::from_str_radix and the sign applied through from_biguint
+            inner = [i for i, t in b.calls() if i in b.live_blocks() and (callee(t) or "").endswith("Num for biguint::BigUint>::from_str_radix")]
+            fb = [i for i, t in b.calls() if i in b.live_blocks() and (callee(t) or "").endswith("BigInt::from_biguint")]
+            if len(inner) != 1 or len(fb) != 1:
+                errs.append("the magnitude is not parsed by BigUint::from_str_radix and wrapped by from_biguint")
+            elif not b.block_dominates(strips[0], inner[0]):
+                errs.append("the magnitude parser does not see the sign-stripped string")
+        if errs:
+            res.fail(Finding("R3-parse-order", key, "; ".join(sorted(set(errs))), b))
+        else:
+            res.ok("R3-parse-order", key, {"order": "strip sign, then reject empty / leading '_' with Err"})
+    res.clause("C06: from_str_radix strips the optional sign first and applies the empty-input and leading-underscore rejections (Err) to the remaining string; BigInt delegates the magnitude to BigUint's parser")
